@@ -184,6 +184,8 @@ pub struct World {
     pub clock_spin: bool,
     /// see `BrokerAct::WakeDelay`
     pub wake_delay_us: u64,
+    /// see `BrokerAct::TimerLatency`
+    pub timer_latency_us: u64,
     /// the slow-transport pause of the current operation has been taken
     pub slow_write_done: bool,
 }
@@ -205,6 +207,7 @@ impl World {
             clock_spin: false,
             slow_write_done: false,
             wake_delay_us: 0,
+            timer_latency_us: 0,
         }))
     }
 
